@@ -9,6 +9,8 @@ let predict (c : string) (obs : string) : string * string * bool =
   | ["seq"; tree; ops] -> seq_case tree ops obs
   | ["conc"; tree; s; plan] -> C02conc.conc_case tree (s = "S") plan obs
   | ["race"; tree; _; _] -> C02conc.race_case tree obs
+  | ["srace"; tree; _; _] -> C02conc.race_case ~self:true tree obs
+  | ["fact"; tree; k; ops] -> C02fact.fact_case tree (int_of_string k) ops obs
   | _ -> ("unknown-case", "BAD:unknown-case", false)
 
 let () = run_cases predict
